@@ -1783,24 +1783,40 @@ def modular_vmap(
     """
 
     @wraps(f)
-    def wrapped(*args):
+    def wrapped(*args, **kwargs):
         # Quickly throw if "normal" vmap would fail.
         jax.vmap(
-            lambda *_: None,
+            lambda *_, **__: None,
             in_axes=in_axes,
             axis_size=axis_size,
             axis_name=axis_name,
             spmd_axis_name=spmd_axis_name,
-        )(*args)
+        )(*args, **kwargs)
 
         interpreter = ModularVmap()
+        if not kwargs:
+            return interpreter.eval(
+                in_axes,
+                axis_size,
+                axis_name,
+                spmd_axis_name,
+                f,
+                *args,
+            )
+        # Keyword arguments are mapped along their leading axis, as jax.vmap does:
+        # they travel as one extra positional dictionary with axis 0.
+        if in_axes is None or isinstance(in_axes, int):
+            positional_axes = (in_axes,) * len(args)
+        else:
+            positional_axes = tuple(in_axes)
         return interpreter.eval(
-            in_axes,
+            (*positional_axes, 0),
             axis_size,
             axis_name,
             spmd_axis_name,
-            f,
+            lambda *call_args: f(*call_args[:-1], **call_args[-1]),
             *args,
+            kwargs,
         )
 
     return wrapped
